@@ -18,6 +18,10 @@ sequential path.
           + index-history leg: the contents are REACHED on one index object that has already served the fan-out
           (add P1, query, clear() + add P2 | keep adding P2, judged query), the sequential twin replays the same
           history on its own object.
+          + retrieval-parameter leg: the knobs t2_semantic reads once and hands to every per-shard task --
+          exact_recent_days (0 = no window, windows that cut between the episode ages, the maximum, key absent),
+          sim_threshold (-1, 0, default, high, 1), clusters_top_m (0, 1, 2) -- quick: one knob off its base value at a
+          time, thorough: every pair; two query texts (the old episode orthogonal to one, best match of the other).
 
 A task the implementation withdraws from the pool (Future cancelled while queued) is part of the pool model
 (``GateController``): it is an outcome judged by the oracle, not a harness time-out.
@@ -548,6 +552,9 @@ T2_EPISODES: Dict[str, dict] = {
     "f": dict(owner="A", text="apple pie pie", days_ago=1, cluster="c1", importance=0.5),
     "g": dict(owner="A", text="fig tart", days_ago=1, cluster="c2", importance=0.5),
     "h": dict(owner="B", text="apple fig", days_ago=1, cluster="c1", importance=0.5),
+    # retrieval-parameter leg: a vector with a NEGATIVE cosine to the query "apple fig" (-0.5; +0.5 to "pear cider"), so that a
+    # sim_threshold below 0 admits something a threshold of 0 does not
+    "n": dict(owner="A", text="sour note", days_ago=1, cluster="c3", importance=0.5, vec=[-1.0, 1.0, 0.0, 0.0, 0.0]),
 }
 T2_BASE_EPISODES = ["a", "b", "c", "d", "e"]
 T2_TEXT = "apple fig"
@@ -558,7 +565,7 @@ T2_PAR_DIAG = {"t2.task_count", "t2.parallel_workers", "t2.partition_count", "ta
 # episode ids are not always strings: stores hand out integers too.  Under the "int" id style the two bit-identical
 # vectors (a, d) get ids whose numeric order (9 < 10) is the opposite of their string order ("10" < "9"), so any two
 # layers that break an exact score tie differently (raw id vs str(id)) disagree exactly where k cuts through the tie
-INT_IDS = {"a": 9, "d": 10, "b": 100, "c": 11, "e": 8, "f": 12, "g": 7, "h": 13}
+INT_IDS = {"a": 9, "d": 10, "b": 100, "c": 11, "e": 8, "f": 12, "g": 7, "h": 13, "n": 14}
 _ID_STYLE = {"v": None}
 
 
@@ -568,7 +575,7 @@ def _t2_episode(eid: str):
     if spec["days_ago"] is None:
         ep = W._ep(eid, spec["owner"], spec["text"], 0, spec["cluster"], spec["importance"], ts=None)
     else:
-        ep = W._ep(eid, spec["owner"], spec["text"], spec["days_ago"], spec["cluster"], spec["importance"])
+        ep = W._ep(eid, spec["owner"], spec["text"], spec["days_ago"], spec["cluster"], spec["importance"], vec=spec.get("vec"))
     ep["id"] = xid
     return ep
 
@@ -620,13 +627,31 @@ def _t2_play(hist, state, cfg, t1, swallow: bool):
             raise HarnessError("unknown index-history operation %r" % (op,))
 
 
-def _t2_cfg(tiers, k, m, w, parallel: bool, scope: str = "any"):
-    key = ("t2", tuple(tiers), k, m, w, parallel, scope)
+# retrieval parameters of the T2 stage that are read once from the configuration and handed to every per-shard task
+# (clusters_top_m is the third one; it has been case["m"] from the start).  "absent" = the key is not in the file.
+T2_KNOBS = ("exact_recent_days", "sim_threshold")
+T2_KNOB_BASE = {"exact_recent_days": 30, "sim_threshold": 0.3}  # = mc.world.BASE_RAW
+
+
+def _t2_cfg(tiers, k, m, w, parallel: bool, scope: str = "any", knobs: Optional[dict] = None):
+    kn = tuple(sorted((knobs or {}).items()))
+    key = ("t2", tuple(tiers), k, m, w, parallel, scope, kn)
     if key not in _CFG_CACHE:
         over: Dict[str, Any] = {"t2": {"tiers": list(tiers), "k_retrieval": k, "clusters_top_m": m, "owner_scope": scope}}
+        base = None
+        for name, val in kn:
+            if name not in T2_KNOBS:
+                raise HarnessError("unknown T2 retrieval parameter %r" % (name,))
+            if val == "absent":
+                if base is None:
+                    import copy
+                    base = copy.deepcopy(W.BASE_RAW)
+                base["t2"].pop(name, None)
+            else:
+                over["t2"][name] = val
         if parallel:
             over["perf"] = {"parallel": {"enabled": True, "t2": True, "max_workers": w}}
-        _CFG_CACHE[key] = W.make_cfg(over)
+        _CFG_CACHE[key] = W.make_cfg(over, base=base)
     return _CFG_CACHE[key]
 
 
@@ -648,7 +673,7 @@ def _t2_exec(case, order):
     scope = case.get("scope", "any")
     hist = _t2_hist(case)
     if order is None:
-        cfg = _t2_cfg(case["tiers"], case["k"], case["m"], case["w"], False, scope)
+        cfg = _t2_cfg(case["tiers"], case["k"], case["m"], case["w"], False, scope, case.get("knobs"))
         try:
             _t2_play(hist, state, cfg, t1, swallow=False)
             return ("ok", t2_core.t2_semantic(W.make_ctx(cfg, "A", 1), state, case["text"], t1)), None
@@ -656,7 +681,7 @@ def _t2_exec(case, order):
             raise
         except Exception as e:  # noqa: BLE001
             return ("exc", e), None
-    cfg = _t2_cfg(case["tiers"], case["k"], case["m"], case["w"], True, scope)
+    cfg = _t2_cfg(case["tiers"], case["k"], case["m"], case["w"], True, scope, case.get("knobs"))
     # the history runs on the same index object in the same process under the parallel configuration; the earlier
     # queries use the free-running pool, the judged query the gated one
     _t2_play(hist, state, cfg, t1, swallow=True)
@@ -722,14 +747,16 @@ def _t2_tag(case):
     hist = _t2_hist(case)
     return "episodes=%r tiers=%r k=%d clusters_top_m=%d workers=%d query=%r%s%s" % (
         list(case["mem"]), list(case["tiers"]), case["k"], case["m"], case["w"], case["text"],
-        ("" if case.get("scope", "any") == "any" else " owner_scope=%s" % case["scope"]) + (
+        ("" if case.get("scope", "any") == "any" else " owner_scope=%s" % case["scope"]) + "".join(
+            " t2.%s=%s" % (n, "<key absent>" if v == "absent" else repr(v)) for n, v in sorted((case.get("knobs") or {}).items())) + (
             "" if not case.get("ids") else " ids=%s %r" % (case["ids"], {e: INT_IDS[e] for e in case["mem"]})),
         "" if not hist else " then-on-the-same-index=%r (contents at the judged query: %r)" % (hist, _t2_contents(case)))
 
 
 def _t2_state_key(case, order):
     return ("t2", tuple(case["mem"]), tuple(case["tiers"]), case["k"], case["m"], case["w"], case.get("scope"),
-            tuple(_t2_hist(case)), case["text"], case.get("ids"), order)
+            tuple(_t2_hist(case)), case["text"], case.get("ids"),
+            tuple(sorted((n, v) for n, v in (case.get("knobs") or {}).items() if T2_KNOB_BASE.get(n) != v)), order)
 
 
 def _t2_attribute(case, order, kind) -> str:
@@ -772,6 +799,8 @@ def _t2_group(case, st: Optional[Stats]) -> List[Tuple[str, str, dict]]:
                 st.add("validated")
                 st.add("t2_executions")
                 st.distinct("states", _t2_state_key(case, order))
+                if case.get("leg") == "knobs":
+                    st.add("t2_parameter_executions")
                 if case.get("hist"):
                     st.add("t2_history_executions")
                     if "C" in case["hist"] and len(_t2_contents(case)) == len(case["mem"]):
@@ -858,6 +887,68 @@ def t2_units(thorough: bool, seed: int):
                         units.append({"kind": "t2", "mem": list(mem), "tiers": tiers, "k": k, "m": 3, "w": w, "text": "apple pie",
                                       "ids": "int"})
     units.extend(t2_history_units(thorough))
+    units.extend(t2_knob_units(thorough))
+    return units
+
+
+# retrieval-parameter alphabets.  Episode ages are 1 (a), 3 (b), 40 (c) days and "no timestamp" (e): the windows are the
+# value with a meaning of its own (0 = no window), one between every two neighbouring ages, the ages themselves where the
+# cut is inclusive (1, 40), the stage default (30, also when the key is absent) and the validator's maximum.
+KNOB_RECENT = {"quick": [0, 2, 36500, "absent"], "thorough": [0, 1, 2, 30, 40, 36500, "absent"]}
+# cosines of the alphabet: 0 (orthogonal), 0.41, 0.5, 0.63, 0.82, 1: the validator's bounds -1 / 1, the value 0 (also the
+# validator's default; admits orthogonal episodes with score 0), the base 0.3 and a cut between the positive scores
+KNOB_SIM = {"quick": [0.0, -1.0, 0.8], "thorough": [-1.0, 0.0, 0.3, 0.8, 1.0]}
+# 3 clusters in the alphabet (c1, c2, the derived one of e): 0 = no cluster, 1, 2 (3 = all is the base legs' second value)
+KNOB_TOP_M = {"quick": [0], "thorough": [0, 1, 2]}
+KNOB_TIERS = [["exact_semantic"], ["cluster_semantic"], ["archive"], ["exact_semantic", "cluster_semantic", "archive"]]
+KNOB_TEXTS = [T2_TEXT, "pear cider"]  # the 40-day-old episode c is orthogonal to the first and the best match of the second
+
+
+def t2_knob_settings(thorough: bool, tiers) -> List[Tuple[dict, int]]:
+    """-> [(knobs, clusters_top_m)] for one tier list.  A knob is varied only where a listed tier reads it
+    (exact_recent_days: exact_semantic, clusters_top_m: cluster_semantic, sim_threshold: every tier).
+    quick: exactly one knob off its base value; thorough: every pair (window x threshold, top-m x threshold)."""
+    tier = "thorough" if thorough else "quick"
+    has_exact, has_cluster = "exact_semantic" in tiers, "cluster_semantic" in tiers
+    out: List[Tuple[dict, int]] = []
+    if not thorough:
+        if has_exact:
+            out += [({"exact_recent_days": rd}, 1) for rd in KNOB_RECENT[tier]]
+        out += [({"sim_threshold": st}, 1) for st in KNOB_SIM[tier]]
+        if has_cluster:
+            out += [({}, m) for m in KNOB_TOP_M[tier]]
+        return out
+    for st in KNOB_SIM[tier]:
+        for rd in (KNOB_RECENT[tier] if has_exact else [None]):
+            kn: Dict[str, Any] = {"sim_threshold": st}
+            if rd is not None:
+                kn["exact_recent_days"] = rd
+            out.append((kn, 1))
+        if has_cluster:
+            out += [({"sim_threshold": st}, m) for m in KNOB_TOP_M[tier] if m != 1]
+    return out
+
+
+def t2_knob_units(thorough: bool):
+    """Retrieval-parameter leg: 'all configurations' includes every valid value of the parameters the fan-out forwards to
+    its per-shard tasks -- in particular the values with a meaning of their own (0 = no recency window, threshold 0,
+    top-m 0), the validator's bounds and an absent key, where a second copy of the hint-building code can drift from the
+    sequential one without any effect at the defaults."""
+    pool = ["a", "c", "e"] + (["b"] if thorough else [])
+    tn = "thorough" if thorough else "quick"
+    units = []
+    # (a, c, n): n has a negative cosine to the first query -- only the threshold is varied on these contents
+    for mem in list(itertools.permutations(pool, 3)) + list(itertools.permutations(["a", "c", "n"], 3)):
+        for tiers in KNOB_TIERS:
+            settings = t2_knob_settings(thorough, tiers) if "n" not in mem else [({"sim_threshold": st}, 1) for st in KNOB_SIM[tn]]
+            for knobs, m in settings:
+                for k in (2, 64):
+                    for w in (2, 3):
+                        for text in KNOB_TEXTS:
+                            u = {"kind": "t2", "mem": list(mem), "tiers": tiers, "k": k, "m": m, "w": w, "text": text, "leg": "knobs"}
+                            if knobs:
+                                u["knobs"] = dict(knobs)
+                            units.append(u)
     return units
 
 
@@ -1077,6 +1168,11 @@ def run(run: Run) -> None:
     run.notes["t1_groups"] = len(tu)
     run.notes["t2_groups"] = len(t2u)
     run.notes["t2_history_groups"] = sum(1 for u in t2u if u.get("hist"))
+    run.notes["t2_parameter_groups"] = sum(1 for u in t2u if u.get("leg") == "knobs")
+    _tn = "thorough" if run.thorough else "quick"
+    run.notes["t2_parameter_alphabet"] = {"exact_recent_days": KNOB_RECENT[_tn], "sim_threshold": KNOB_SIM[_tn],
+                                          "clusters_top_m": KNOB_TOP_M[_tn], "queries": KNOB_TEXTS,
+                                          "combination": "every pair" if run.thorough else "one parameter off its base value"}
     run.notes["helper_orders_by_n_w"] = {"n=%d" % n: [po.count_orders(n, w) for w in range(9)] for n in range(0, (5 if run.thorough else 4) + 1)}
     import time as _time
     t0 = _time.time()
@@ -1109,12 +1205,18 @@ def run(run: Run) -> None:
                 "(T2) %d groups = ordered episode selections (<=%d of %d) x tier lists x k {1,2,64} x clusters_top_m {1,3} x workers 2..4 "
                 "(+ owner_scope=agent leg, owner x cluster leg, two-queries leg) + index-history leg (%d groups): ONE index object "
                 "= add P1, query, then clear()+add P2 (every ordered selection of 2-3 of %d episodes for P1 and P2, so also equal sizes) "
-                "or keep adding P2, then the judged query%s; non-trivial = execution with >=2 pool threads whose completion order is not "
+                "or keep adding P2, then the judged query%s; + retrieval-parameter leg (%d groups): every ordered selection of 3 of "
+                "%d episodes (ages 1 / 3 / 40 days / no timestamp) x tiers {exact, cluster, archive, all three} x k {2,64} x workers "
+                "{2,3} x 2 queries (+ 6 selections with an episode whose cosine to the query is negative: threshold varied only) "
+                "x t2.exact_recent_days %r x t2.sim_threshold %r x t2.clusters_top_m %r (base 30 / 0.3 / 1; %s; a "
+                "parameter is varied only where a listed tier reads it); non-trivial = execution with >=2 pool threads whose completion order is not "
                 "the submit order (helper: or with a failing task)" % (
                     5 if run.thorough else 4, len(SHAPES_THOROUGH if run.thorough else SHAPES_QUICK),
                     len(tu), len(t2u), 5 if run.thorough else 4, 5 if run.thorough else 4,
                     len(t2_history_units(run.thorough)), 4 if run.thorough else 3,
-                    " (+ clear() before any query, + two clear-and-refill cycles)" if run.thorough else ""))
+                    " (+ clear() before any query, + two clear-and-refill cycles)" if run.thorough else "",
+                    run.notes["t2_parameter_groups"], 4 if run.thorough else 3, KNOB_RECENT[_tn], KNOB_SIM[_tn], KNOB_TOP_M[_tn],
+                    "every pair window x threshold and top-m x threshold" if run.thorough else "one parameter off its base value at a time"))
     run.assume("completion order = order in which the task bodies run to completion and their futures become done; in those legs the bodies "
                "execute one at a time.  Interleavings INSIDE two task bodies are the schedule leg: the stage's pool is replaced by "
                "baton-scheduled workers, scheduling points = line events of t1.py resp. t2/parallel.py + memory/index.py (cache and store "
@@ -1128,6 +1230,10 @@ def run(run: Run) -> None:
                "the sequential twin replays the same history on its own index object under the sequential configuration; histories "
                "use the index's public mutators add() and clear() only; earlier and judged query texts differ, so the stage-level "
                "result cache (keyed by query text and index version) cannot answer the judged query")
+    run.assume("retrieval-parameter leg: the values are valid configurations (configs/validate.py: exact_recent_days in [0, 36500], "
+               "sim_threshold in [-1, 1], clusters_top_m >= 0; 'absent' = the key is missing from the t2 section and the stage default "
+               "applies); every query runs on the logical clock ctx.now = 2025-06-01, so the windows cut between fixed episode ages; the "
+               "parameters outside this leg (all other legs) are exact_recent_days 30, sim_threshold 0.3, clusters_top_m {1,3}")
     run.assume("'real pools under switch-interval jitter' and 'sampled beyond 5 tasks' of the quantifier text are not done (sampling)")
     run.assume("not compared: cache diagnostics (cache_hits, cache_misses, cache_used, cache eviction counters; and, whenever a cache "
                "hit is possible -- pre-warmed cache or a graph listed twice --, the values a hit reports as 0: max_delta, "
